@@ -28,7 +28,9 @@ with their DISPATCHERS as sinks (item (2) of "what is left" in `Thm/C06_Handover
   `C06_scan_indep_parse_partial` — the same for one `Parser::parse` call of fresh parsers (any `last`): both
   calls succeed; outside a tag `H` is in the same state and the dispatchers are `ObsR false`-related; inside a
   tag the plain run is one hint ahead. This is rung R1 at parser level.
-* NOT proved: `Stream` / `Rewriter` level even for R1 (a `write` parses with `last = false` and the two runs
+* `C06_scan_indep_first_write_partial` — the same at the API level for the FIRST `write` of a rewriter (`write_fresh`);
+  `stayScan_of_noCapture`: controllers that never capture and never remove content satisfy `StayScan`.
+* NOT proved: `Stream` / `Rewriter` level beyond the first `write`, even for R1 (a `write` parses with `last = false` and the two runs
   retain different tails — `tag_start..` vs `lexeme_start..` —, so the `end` call parses different buffers:
   item (3) does not disappear with a single `write`), rung R2 (hand-over), rung R3 — statements at the end.
 -/
@@ -415,6 +417,140 @@ theorem C06_independence_statement3_refuted : ¬ C06_independence_statement3 := 
   have h5 := this (by intro x hx; rw [h1] at hx; simp at hx; exact hx) (by intro x hx; rw [h2] at hx; simp at hx; exact hx)
   rw [h3, h4] at h5
   cases h5
+
+/-! ### a sufficient condition for `StayScan`; the first `write` of a rewriter -/
+
+/-- a controller that never captures anything (all its capture flags are empty: e.g. element handlers whose
+selectors never match, or bookkeeping only) and never removes content stays in the tag scanner -/
+theorem stayScan_of_noCapture {H : Controller γ}
+    (hst : ∀ g n ns, ∃ g' f, H.startTag g n ns = (g', .flags f) ∧ f.isEmpty = true)
+    (hen : ∀ g n, (H.endTag g n).2.isEmpty = true) (hem : ∀ g, H.shouldEmit g = true) : StayScan H where
+  start := by
+    intro d n ns hm
+    obtain ⟨g', f, he, hf⟩ := hst d.ctl n ns
+    have hee : d.emissionEnabled = true := by rw [hm.emis]; exact hem _
+    unfold Disp.startTagHint
+    rw [he]
+    dsimp only
+    unfold Disp.applyHintFlags
+    simp only [Disp.nextDirective, hf, if_true]
+    exact ⟨trivial, ⟨hf, hm.tp, by simp only; rw [hee]; exact (hem _).symm⟩⟩
+  end_ := by
+    intro d n hm
+    have hee : d.emissionEnabled = true := by rw [hm.emis]; exact hem _
+    have hstop : ({ d with ctl := (H.endTag d.ctl n).1 } : Disp γ).shouldStopRemoving H = false := by
+      simp [Disp.shouldStopRemoving, hee]
+    unfold Disp.endTagHint
+    rw [flush_idle hm.tp, DRes.bind_ok' _ rfl]
+    dsimp only
+    rw [hstop]
+    simp only [Bool.false_eq_true, if_false]
+    unfold Disp.applyHintFlags
+    simp only [Disp.nextDirective, hen, if_true]
+    exact ⟨trivial, ⟨hen _ _, hm.tp, by simp only; rw [hee]; exact (hem _).symm⟩⟩
+
+theorem flushRemaining_ctl' {κ : Type} {d d' : Disp κ} {inp : Bytes} {k : Nat} (h : d.flushRemaining inp k = .ok d') :
+    d'.ctl = d.ctl := by
+  unfold Disp.flushRemaining at h
+  split at h
+  · split at h
+    · cases h
+    · simp only [Except.ok.injEq] at h
+      subst h
+      split <;> rfl
+  · simp only [Except.ok.injEq] at h
+    subst h
+    rfl
+
+/-- a successful `write` on a stream without buffered data: the controller state and the scanner's table state are
+those left by `Parser::parse` on the data -/
+theorem write_fresh {κ : Type} (w : World κ) (s : Stream κ) (hb : s.hasBuffered = false) (data : Bytes)
+    (hok : (s.write w data).2 = .ok ()) :
+    (s.write w data).1.disp.ctl = (s.parser.parse w.env data false).1.x.sink.ctl ∧
+    (s.write w data).1.parser.scanC = (s.parser.parse w.env data false).1.scanC := by
+  obtain ⟨p, b, hbf, c, n⟩ := s
+  simp only at hb
+  subst hb
+  unfold Stream.write Stream.chunkFor at hok ⊢
+  simp only [Bool.false_eq_true, if_false] at hok ⊢
+  cases hp : (p.parse w.env data false).2 with
+  | error e => rw [hp] at hok; cases hok
+  | ok consumed =>
+    simp only [hp] at hok ⊢
+    cases hf : (Stream.disp ⟨(p.parse w.env data false).1, b, false, c, n⟩).flushRemaining data consumed with
+    | error e => simp only [hf] at hok; cases hok
+    | ok d =>
+      simp only [hf] at hok ⊢
+      have hc := flushRemaining_ctl' hf
+      unfold Stream.keepTail at hok ⊢
+      simp only [Stream.setDisp, Bool.false_eq_true, if_false] at hok ⊢
+      by_cases h1 : consumed < data.length
+      · simp only [h1, if_true] at hok ⊢
+        by_cases h2 : (b.initWith (List.drop consumed data)).2 = true
+        · simp only [h2, if_true]
+          exact ⟨hc, trivial⟩
+        · simp only [h2, if_false] at hok
+          cases hok
+      · simp only [h1, if_false]
+        exact ⟨hc, trivial⟩
+
+/-- the fresh dispatchers of the two runs are related -/
+theorem obsR_new (H : Controller γ) (o : Flags) (ho : o.sticky = true) (g : γ) (enc : Nat) :
+    ObsR false (Disp.new (Model.withObs H o) (g, H.initialFlags g) enc) (Disp.new H g enc) :=
+  ObsR.mk' (c' := (g, H.initialFlags g)) (c := g)
+    (v' := ⟨(H.initialFlags g).join o, true, false, false, false, 0, .data, 0⟩)
+    (v := ⟨H.initialFlags g, true, false, false, false, 0, .data, 0⟩) rfl rfl rfl rfl
+    ⟨rfl, ⟨o, rfl⟩, fun hh => (by cases hh), Flags.sticky_join_right ho, rfl, rfl, rfl, rfl, rfl,
+      fun hh => (by cases hh), fun _ hh => (by cases hh), Nat.le_refl _⟩
+
+/-- **C06_scan_indep_first_write_partial** (rung R1 at the API level, first `write` only). `H` starts in the tag
+scanner (no capture flags) with emission enabled; the first `write` of the plain run and of the observing run:
+if the plain run's parsing loop ends with "end of input" without hand-over, the observing run's too, both
+`write` calls succeed and the data does not end inside a tag (after its name), `H` is in the same state after the
+call. (For the following calls the two runs hold different tails: item (3).) -/
+theorem C06_scan_indep_first_write_partial (w : World γ) (o : Flags) (P : PLabels) (hside : PhaseOk w.tbl P = true)
+    (ht : EmitsChecked w.tbl = true) (hdata : P.at w.tbl.dataState = .outClean)
+    (hs : StayScan w.ctl) (hh : HashOnly w.ctl) (ed : EmitDiscipline w.ctl) (ho : o.sticky = true)
+    (g : γ) (cfg : Settings) (data : Bytes)
+    (hinit : (w.ctl.initialFlags g).isEmpty = true) (hemit : w.ctl.shouldEmit g = true) (ks kl : Nat)
+    (h1 : (runLoop w.env data (defaultFuel data) ((Stream.new w g cfg).parser.machine false)).2 = .endOfInput ks)
+    (h2 : (runLoop (World.withObs w o).env data (defaultFuel data)
+      ((Stream.new (World.withObs w o) (g, w.ctl.initialFlags g) cfg).parser.machine false)).2 = .endOfInput kl)
+    (hok : ((Stream.new w g cfg).write w data).2 = .ok ())
+    (hok' : ((Stream.new (World.withObs w o) (g, w.ctl.initialFlags g) cfg).write (World.withObs w o) data).2 = .ok ())
+    (hab : P.at ((Stream.new w g cfg).write w data).1.parser.scanC.state ≠ .inTag) :
+    ((Stream.new (World.withObs w o) (g, w.ctl.initialFlags g) cfg).write (World.withObs w o) data).1.disp.ctl.1 =
+      ((Stream.new w g cfg).write w data).1.disp.ctl := by
+  have eS : (Stream.new w g cfg).parser = Parser.new w.tbl (Disp.new w.ctl g cfg.encoding) .scan cfg.strict := by
+    simp [Stream.new, hinit]
+  have hne : ((w.ctl.initialFlags g).join o).isEmpty = false := Flags.sticky_nonempty (Flags.sticky_join_right ho)
+  have eL : (Stream.new (World.withObs w o) (g, w.ctl.initialFlags g) cfg).parser =
+      Parser.new w.tbl (Disp.new (Model.withObs w.ctl o) (g, w.ctl.initialFlags g) cfg.encoding) .lex cfg.strict := by
+    simp [Stream.new, World.withObs, Model.withObs, hne]
+  obtain ⟨a1, a2⟩ := write_fresh w (Stream.new w g cfg) rfl data hok
+  obtain ⟨b1, _⟩ := write_fresh (World.withObs w o) (Stream.new (World.withObs w o) (g, w.ctl.initialFlags g) cfg) rfl data hok'
+  rw [a1, b1]
+  rw [a2] at hab
+  rw [eS] at h1 hab ⊢
+  rw [eL] at h2 ⊢
+  have hm : ScanMode w.ctl (Disp.new w.ctl g cfg.encoding) := ⟨hinit, rfl, hemit.symm⟩
+  obtain ⟨_, _, r3, _⟩ := C06_scan_indep_parse_partial (H := w.ctl) (o := o) (tbl := w.tbl) (cfg := w.tags) (P := P)
+    hside ht hdata hs hh ed ho data cfg.strict false (obsR_new w.ctl o ho g cfg.encoding) hm ks kl h1 h2
+  exact (r3 hab).2
+
+/-- non-vacuity: the first `write` of `<a b='c'>x</a><!--` — the plain run consumes all 18 bytes (the scanner holds
+nothing back in a comment), the observing run 14 (the lexer holds back `<!--`): different tails, same state of `H` -/
+example :
+    ((Stream.new (World.withObs countWorld (Flags.ofNat 1)) (0, countWorld.ctl.initialFlags 0) {}).write
+      (World.withObs countWorld (Flags.ofNat 1)) sampleInput).1.disp.ctl.1 =
+    ((Stream.new countWorld 0 {}).write countWorld sampleInput).1.disp.ctl :=
+  C06_scan_indep_first_write_partial countWorld (Flags.ofNat 1) genPhaseLabels C06_phaseSide_gen C06_emitsChecked_gen
+    (by decide) countCtl_stayScan countCtl_hashOnly countCtl_emit (by decide) 0 {} sampleInput (by decide) rfl 18 14
+    (by decide +kernel) (by decide +kernel) (by decide +kernel) (by decide +kernel) (by decide +kernel)
+
+example : StayScan countCtl :=
+  stayScan_of_noCapture (fun g _ _ => ⟨g + 1, Flags.ofNat 0, rfl, by decide⟩)
+    (fun _ _ => (by decide : (Flags.ofNat 0).isEmpty = true)) (fun _ => rfl)
 
 /-! ### statements -/
 
